@@ -63,7 +63,7 @@ Print Assumptions C10_bt_replay_clears.
 Definition K_d4 (ca : bool) : cfg :=
   {| c_cap := 1024; c_batch := 51; c_pub := {| on_batch := true; on_drain := true |}; c_dropping := false;
      c_tinit := 4; c_soft := 4; c_hard := 8; c_grace := 0; c_bits := 32; c_refresh2 := true; c_catch_all := ca;
-     c_report_first := true; c_bt := {| reset_index_in_process := true; cap0_guard := true |}; c_bt_catch := true |}.
+     c_report_first := true; c_bt := {| reset_index_in_process := true; cap0_guard := true |}; c_bt_catch := true; c_flush_iv := 0 |}.
 Definition d4_cmds : list cmd :=
   [CLog 0 (mk_ev 1 0 4 50 0) false; CLog 0 (mk_ev 2 0 4 50 2) false; CLog 0 (mk_ev 3 0 4 50 0) false] ++ repeat (CPoll []) 6.
 Definition d4_state (ca : bool) : st :=
